@@ -483,6 +483,18 @@ pub fn c14_eval(bytes: &[u8], uni: &'static str, acc: &mut Acc) {
                     if !same_with_spans(&via_slice, s) {
                         return Err(format!("toml_edit::de::from_slice delivers different spans than from_str: {:?} vs {:?}", via_slice, s));
                     }
+                    let via_fromstr: SNode = text.parse::<toml_edit::de::Deserializer>().map_err(|e| format!("str::parse::<de::Deserializer> fails: {}", e.message())).and_then(|d| SNode::deserialize(d).map_err(|e| format!("decoding through str::parse::<toml_edit::de::Deserializer> fails where toml::from_str succeeds: {}", e.message())))?;
+                    if !same_with_spans(&via_fromstr, s) {
+                        return Err("str::parse::<toml_edit::de::Deserializer> delivers different spans / values than toml::from_str".into());
+                    }
+                    let via_parse: SNode = toml_edit::de::Deserializer::parse(text).map_err(|e| format!("de::Deserializer::parse fails: {}", e.message())).and_then(|d| SNode::deserialize(d).map_err(|e| format!("decoding through toml_edit::de::Deserializer::parse fails where toml::from_str succeeds: {}", e.message())))?;
+                    if !same_with_spans(&via_parse, s) {
+                        return Err("toml_edit::de::Deserializer::parse delivers different spans / values than toml::from_str".into());
+                    }
+                    let via_toml_de: SNode = SNode::deserialize(toml::Deserializer::new(text)).map_err(|e| format!("decoding through toml::Deserializer::new fails where toml::from_str succeeds: {}", e.message()))?;
+                    if !same_with_spans(&via_toml_de, s) {
+                        return Err("toml::Deserializer::new delivers different spans / values than toml::from_str".into());
+                    }
                     // keys through wrapper layers: a newtype around Spanned<String>, a newtype around that, an Option-free
                     // transparent wrapper - "wrapping a target type in Spanned never changes whether decoding succeeds"
                     let nk: std::collections::BTreeMap<NK, serde::de::IgnoredAny> = toml::from_str(text).map_err(|e| format!("a map keyed by a newtype around Spanned<String> fails to decode where Spanned<String> keys succeed: {}", e.message()))?;
